@@ -672,7 +672,7 @@ class Interp:
         if isinstance(e, ast.Name):
             if e.id in env:
                 return env[e.id]
-            if e.id in ("np", "numpy", "copy", "math", "random"):
+            if e.id in ("np", "numpy", "copy", "math", "random", "itertools"):
                 return Namespace(e.id)
             if e.id in _BUILTINS:
                 return Namespace("builtins." + e.id)
@@ -799,6 +799,8 @@ class Interp:
                 return o.f[attr]
             owner, fn = self.model.lookup(o.cls, attr)
             if fn is not None:
+                if any(isinstance(dc, ast.Name) and dc.id == "staticmethod" for dc in fn.decorator_list):
+                    return BoundMethod(None, fn, owner.name)
                 return BoundMethod(o, fn, owner.name)
             # class-level attribute: one object shared by every instance of the class
             for c in self.model.mro(o.cls):
@@ -1044,6 +1046,25 @@ class Interp:
             return int(v) if n == "int" else v
         if n == "bool":
             return self.truth(args[0], node)
+        if n == "map":
+            fnv = args[0]
+            seqs = [list(self.as_iter(a)) for a in args[1:]]
+            return AList([self.call(fnv, list(xs), {}, node, env) for xs in zip(*seqs)])
+        if n in ("itertools.product", "product"):
+            import itertools as _it
+            rep = self.index(kw.get("repeat", 1)) if "repeat" in kw else 1
+            seqs = [list(self.as_iter(a)) for a in args]
+            return AList([tuple(t) for t in _it.product(*seqs, repeat=rep)])
+        if n in ("itertools.chain", "chain"):
+            out = AList()
+            for a in args:
+                out.extend(self.as_iter(a))
+            return out
+        if n in ("itertools.chain.from_iterable", "chain.from_iterable"):
+            out = AList()
+            for a in self.as_iter(args[0]):
+                out.extend(self.as_iter(a))
+            return out
         if n in ("all", "any"):
             # (the elements were evaluated eagerly; for side-effect-free elements only the number of evaluations differs)
             want = n == "any"
@@ -1241,7 +1262,7 @@ class SymCond:
         return None
 
 
-_BUILTINS = {"divmod", "round", "dict", "set", "len", "range", "list", "tuple", "enumerate", "zip", "reversed", "int", "float", "bool", "all", "any",
+_BUILTINS = {"divmod", "round", "dict", "set", "len", "range", "list", "tuple", "enumerate", "zip", "reversed", "int", "float", "bool", "all", "any", "map",
              "isinstance", "abs", "min", "max", "sum", "print", "super"}
 
 
